@@ -153,6 +153,7 @@ void e1_run(const e1_cfg *c, e1_stats *out) {
             double now = vf_now_s();
             if (c->deadline_s > 0 && now - t0 > c->deadline_s) { out->fixpoint = 0; out->cap = "deadline"; break; }
             if (vf_violation_events && now - vf_first_violation_t > VF_GRACE_AFTER_VIOLATION_S) { out->fixpoint = 0; out->cap = "stopped-after-violation"; break; }
+            if ((si & 4095) == 0 && vf_mem_exceeded()) { out->fixpoint = 0; out->cap = "memory"; break; }
         }
         for (int ev = 0; ev < c->nev; ev++) {
             put_snap(S[si].snap);
